@@ -522,6 +522,18 @@ def _norm_pred(p, ranges, depth=0):
         if a is None or b is None:
             return None
         return ("xor",) + tuple(sorted((a, b), key=repr))
+    if k == "ovf":
+        # the overflow flag of overflowing_add / overflowing_sub on unsigned operands: carry out / borrow
+        base, x, y = pr[1], pr[2], pr[3]
+        if x.kind != "int" or y.kind != "int" or x.signed or x.aff is None or y.aff is None:
+            return None
+        import mir as M
+        tlo, thi = M.type_range(x.ty)
+        if base == "Add":
+            return ("pos", x.aff.add(y.aff).sub(Lin(thi)).simplify(ranges))
+        if base == "Sub":
+            return ("pos", y.aff.sub(x.aff).simplify(ranges))
+        return None
     if k != "cmp":
         return None
     op, x, y = pr[1], pr[2], pr[3]
@@ -592,9 +604,23 @@ def _pred_show(q):
     return {"pos": "{} > 0", "zero": "{} == 0", "nonzero": "{} != 0"}[q[0]].format(q[1].pretty())
 
 
+def _canon_pred(q):
+    """`sx_w(X) < 0` is `X mod 2^w >= 2^(w-1)`: one spelling for the sign test"""
+    from domains import Lin
+    if q[0] == "xor":
+        return ("xor",) + tuple(sorted((_canon_pred(q[1]), _canon_pred(q[2])), key=repr))
+    if q[0] == "pos" and q[1].c == 0 and len(q[1].terms) == 1:
+        b, k = q[1].terms[0]
+        if k == -1 and not isinstance(b, str) and b[0] == "sx":
+            w = b[2]
+            return ("pos", b[1].mod(1 << w).sub(Lin((1 << (w - 1)) - 1)))
+    return q
+
+
 def _compare_preds(have, want, ranges):
     """'equal' | ('differ', env) | 'unknown' : both are exact predicates over the operand atoms"""
     import itertools
+    have, want = _canon_pred(have), _canon_pred(want)
     if have == want or repr(have) == repr(want):
         return "equal"
     if have[0] == want[0] and have[0] in ("zero", "nonzero"):
